@@ -291,7 +291,8 @@ fn flat_keys<'a>(sels: &'a [Sel], doc: &'a Doc, seen: &mut Vec<String>, out: &mu
 /// The feature vocabulary of signatures is deliberately small (what shrinking cannot remove but is incidental —
 /// nesting depth, plain aliases, type conditions needed for field validity — is not part of it):
 /// cond-var / cond-literal (@skip/@include on a variable / literal), same-key-twice (a response key contributed
-/// twice to one object, through fragments too), typename-aliased, alias-named-typename.
+/// twice to one object, through fragments too). (Aliased `__typename` / an alias named `__typename` were features
+/// until their defect was repaired in /repo 72cec20; a regression now shows up under an unlisted signature.)
 fn sel_features(sels: &[Sel], doc: &Doc, f: &mut BTreeSet<&'static str>) {
     let mut keys = vec![];
     flat_keys(sels, doc, &mut vec![], &mut keys);
@@ -302,17 +303,8 @@ fn sel_features(sels: &[Sel], doc: &Doc, f: &mut BTreeSet<&'static str>) {
     }
     for s in sels {
         match s {
-            Sel::Field { alias, name, dirs, sel, .. } => {
+            Sel::Field { dirs, sel, .. } => {
                 dir_features(dirs, f);
-                if name == "__typename" {
-                    if alias.is_some() {
-                        f.insert("typename-aliased");
-                    }
-                } else if let Some((a, _)) = alias {
-                    if a == "__typename" {
-                        f.insert("alias-named-typename");
-                    }
-                }
                 if let Some(ss) = sel {
                     sel_features(ss, doc, f);
                 }
@@ -335,10 +327,7 @@ pub fn doc_features(d: &Doc, direction: &str) -> String {
             ExecDef::Import(_) => {}
         }
     }
-    if direction != "exclude" {
-        // an aliased __typename is typed too loosely, never too strictly: incidental when a response is excluded
-        f.remove("typename-aliased");
-    }
+    let _ = direction;
     if f.is_empty() {
         "plain".into()
     } else {
@@ -890,23 +879,28 @@ fn inject_conditioned_duplicate(rng: &mut Rng, schema: &SchemaModel, doc: &mut D
     true
 }
 
-/// `__typename: <leaf field>` on the root selection
+/// `injN: f { __typename: <leaf field> }` for an argument-less root field `f` of object type
 fn inject_alias_named_typename(rng: &mut Rng, schema: &SchemaModel, doc: &mut Doc) -> bool {
     let Some((op, _)) = first_op_sel(doc) else { return false };
     if op.kind == OpKind::Subscription {
         return false;
     }
-    if op.sel.iter().any(|s| s.response_key() == Some("__typename")) {
-        return false;
-    }
     let Some(root) = schema.root(op.kind).map(|s| s.to_string()) else { return false };
     let Some(rt) = schema.type_def(&root) else { return false };
-    let leafs: Vec<&FieldDef> = rt.fields.iter().filter(|g| g.args.iter().all(|a| !a.ty.is_non_null() || a.default.is_some()) && !schema.is_composite(g.ty.unwrapped())).collect();
+    let ok_args = |g: &FieldDef| g.args.iter().all(|a| !a.ty.is_non_null() || a.default.is_some());
+    let cands: Vec<&FieldDef> = rt.fields.iter().filter(|f| ok_args(f) && schema.kind_of(f.ty.unwrapped()) == Some(TypeKind::Object)).collect();
+    if cands.is_empty() {
+        return false;
+    }
+    let f = cands[rng.below(cands.len())];
+    let target = schema.type_def(f.ty.unwrapped()).unwrap();
+    let leafs: Vec<&FieldDef> = target.fields.iter().filter(|g| ok_args(g) && !schema.is_composite(g.ty.unwrapped())).collect();
     if leafs.is_empty() {
         return false;
     }
     let l = leafs[rng.below(leafs.len())];
-    op.sel.push(Sel::Field { alias: Some(("__typename".into(), P::default())), name: l.name.clone(), name_pos: P::default(), args: vec![], dirs: vec![], sel: None });
+    let inner = Sel::Field { alias: Some(("__typename".into(), P::default())), name: l.name.clone(), name_pos: P::default(), args: vec![], dirs: vec![], sel: None };
+    op.sel.push(Sel::Field { alias: Some(("injT".into(), P::default())), name: f.name.clone(), name_pos: P::default(), args: vec![], dirs: vec![], sel: Some(vec![inner]) });
     true
 }
 
@@ -926,9 +920,9 @@ pub fn main_for(property: &str, which: &'static str) {
     let search = args.extra.get("search").map(|s| s == "1").unwrap_or(false);
     let cap = match (which, args.thorough()) {
         ("oracle.c01", false) => 600,
-        ("oracle.c01", true) => 2000,
+        ("oracle.c01", true) => 1200,
         (_, false) => 300,
-        (_, true) => 800,
+        (_, true) => 500,
     };
     {
         let mut r = Runner { rep: &mut rep, drv: &mut drv, which, cap, shrink_budget: 1200, max_shrinks: if args.thorough() || search { 400 } else { 24 }, shrinks_done: 0,
@@ -943,7 +937,7 @@ pub fn main_for(property: &str, which: &'static str) {
         let corpus = corpus();
         r.run(&corpus, true);
         let mut rng = Rng::new(args.seed);
-        let n = if search { 3000 } else { args.budget(300, 5000) };
+        let n = if search { 1500 } else if which == "oracle.c01" { args.budget(300, 3000) } else { args.budget(220, 1500) };
         let mut batch = vec![];
         for i in 0..n {
             let c = gen_case(&mut rng, r.rep);
